@@ -538,7 +538,7 @@ var prefixBad = []string{
 
 var routePool = []string{
 	"2001:db8:100::/48", "2001:db8:100:1::/64", "2001:db8:200::/48", "2001:db8:300::/40", "fd00:100::/32",
-	"2001:db8:9::1/128", "::/0", "::/0", "", "2000::/3", "fd00::/7",
+	"2001:db8:9::1/128", "::/0", "::/0", "", "2000::/3", "fc00::/7",
 }
 
 var serverPool = []string{
@@ -588,7 +588,7 @@ func genIface(r *vfh.Rand, name string, valid int, small bool) gIface {
 	i := gIface{name: name, advertise: r.Chance(5, 6), verbose: r.Chance(1, 8)}
 	if r.Chance(1, 12) {
 		i.monitor = true
-		i.advertise = r.Chance(1, 5)
+		i.advertise = !ok() && r.Chance(1, 2)
 	}
 	// intervals
 	switch {
@@ -664,12 +664,16 @@ func genIface(r *vfh.Rand, name string, valid int, small bool) gIface {
 
 	nmax := 4
 	if small {
-		nmax = 2
+		nmax = 3
 	}
-	// prefixes
+	// prefixes: the valid stream draws pairwise disjoint prefixes, the rest may overlap
+	disjointP := []string{"2001:db8:0:1::/64", "2001:db8:0:2::/64", "fd00:1::/64", "fd00:2::/64", "2600:1::/64", "::/64", "2001:db8:a000::/56"}
+	vfh.Shuffle(r, disjointP)
 	for k := r.Intn(nmax); k > 0; k-- {
 		p := gPrefix{prefix: vfh.Pick(r, prefixPool), deprecated: r.Chance(1, 4)}
-		if !ok() && r.Chance(1, 2) {
+		if ok() {
+			p.prefix = disjointP[k]
+		} else if r.Chance(1, 2) {
 			p.prefix = vfh.Pick(r, prefixBad)
 		}
 		if r.Chance(1, 3) {
@@ -684,10 +688,13 @@ func genIface(r *vfh.Rand, name string, valid int, small bool) gIface {
 			if r.Bool() {
 				v = v.Truncate(time.Second) + time.Second
 			}
-			pf := time.Duration(r.Range(1, int64(v)))
+			pf := time.Duration(r.Range(1, int64(v))) // v is final here: preferred <= valid
 			switch r.Intn(6) {
 			case 0: // defaults
 			case 1:
+				if v < 4*time.Hour {
+					v += 4 * time.Hour // the default preferred lifetime is 4 h
+				}
 				p.valid = sp(v.String())
 			case 2:
 				p.valid, p.preferred = sp(v.String()), sp(pf.String())
@@ -696,6 +703,7 @@ func genIface(r *vfh.Rand, name string, valid int, small bool) gIface {
 				if r.Bool() {
 					p.preferred = sp("infinite")
 				}
+				p.deprecated = false
 			case 4:
 				p.valid, p.preferred = sp("auto"), sp("auto")
 			default:
@@ -711,15 +719,22 @@ func genIface(r *vfh.Rand, name string, valid int, small bool) gIface {
 		i.prefixes = append(i.prefixes, p)
 	}
 	// routes
+	disjointR := []string{"2001:db8:100::/48", "2001:db8:200::/48", "2001:db8:300::/40", "fd00:100::/32", "2001:db8:9::1/128", "::/0", ""}
+	vfh.Shuffle(r, disjointR)
 	for k := r.Intn(nmax); k > 0; k-- {
 		rt := gRoute{prefix: vfh.Pick(r, routePool), preference: vfh.Pick(r, []string{"", "low", "medium", "high"}), deprecated: r.Chance(1, 4)}
-		if !ok() && r.Chance(1, 2) {
+		if ok() {
+			rt.prefix = disjointR[k]
+		} else if r.Chance(1, 2) {
 			rt.prefix = vfh.Pick(r, []string{"2001:db8::1/64", "10.0.0.0/8", "::/1", "::/64", "::ffff:0.0.0.0/96", "bar", "2001:db8:100::/56"})
 		}
 		if !ok() && r.Chance(1, 4) {
 			rt.preference = "urgent"
 		}
 		rt.lifetime = genLifetimePtr(r, valid)
+		if ok() && rt.lifetime != nil && *rt.lifetime == "infinite" {
+			rt.deprecated = false
+		}
 		i.routes = append(i.routes, rt)
 	}
 	// RDNSS
@@ -805,8 +820,11 @@ var ifNames = []string{"eth0", "eth1", "eth2", "lan0", "wan0", "br-lan"}
 
 func genConfig(r *vfh.Rand, valid int) gConfig {
 	var c gConfig
+	// structural mistakes (no interfaces, name/names misuse, repeats, bad debug address) are drawn
+	// from the invalid share of the stream only, so that the valid stream is mostly accepted
+	bad := func(num, den int) bool { return r.Intn(100) >= valid && r.Chance(num, den) }
 	n := 1 + r.Intn(3)
-	if r.Chance(1, 30) {
+	if bad(1, 6) {
 		n = 0
 	}
 	perm := []int{0, 1, 2, 3, 4, 5}
@@ -823,12 +841,12 @@ func genConfig(r *vfh.Rand, valid int) gConfig {
 				i.names = append(i.names, ifNames[perm[k%6]])
 				k++
 			}
-			if r.Chance(1, 5) { // repeat inside the list
+			if bad(1, 2) { // repeat inside the list
 				i.names = append(i.names, i.names[0])
 			}
-		case r.Chance(1, 20): // both
+		case bad(1, 4): // both
 			i.names = []string{ifNames[perm[k%6]]}
-		case r.Chance(1, 25): // neither
+		case bad(1, 4): // neither
 			i.name = ""
 			if r.Bool() {
 				i.names = []string{}
@@ -837,7 +855,7 @@ func genConfig(r *vfh.Rand, valid int) gConfig {
 			i.name = ""
 			i.names = []string{""}
 		}
-		if r.Chance(1, 12) && j > 0 { // repeat across stanzas
+		if bad(1, 3) && j > 0 { // repeat across stanzas
 			prev := c.ifaces[r.Intn(len(c.ifaces))]
 			if prev.name != "" {
 				i.name, i.names = prev.name, nil
@@ -855,7 +873,9 @@ func genConfig(r *vfh.Rand, valid int) gConfig {
 	case 2:
 		c.debugAddr = "[::1]:9430"
 	case 3:
-		c.debugAddr = vfh.Pick(r, []string{"x:y:z", ":99999", "nocolon", "127.0.0.1"})
+		if bad(1, 1) {
+			c.debugAddr = vfh.Pick(r, []string{"x:y:z", ":99999", "nocolon", "127.0.0.1"})
+		}
 	}
 	c.prom, c.pprof = r.Chance(1, 3), r.Chance(1, 4)
 	return c
@@ -909,7 +929,7 @@ func verifC02(t *testing.T, r *vfh.Rand, out *vfh.Out) {
 	// (2) structured documents: 60 % mostly-valid, 25 % boundary-heavy, 15 % invalid-heavy
 	n := vfh.N(20000, 400000)
 	for k := 0; k < n; k++ {
-		valid := 95
+		valid := 99
 		switch {
 		case k%20 >= 12 && k%20 < 17:
 			valid = 70
